@@ -146,41 +146,114 @@ theorem mapAll_entry_of_inj (ndr ndc : Nat) (hr : 0 < ndr) (hc : 0 < ndc) (s : S
       ⟨fun h => gidx_inj _ hc hC ht.2 hcc h, fun h => by rw [h]⟩
     simp only [e1, e2]
 
-/-- The accumulation coded in `Mpfa.discretize` today coincides with the plain sum when the
-    "all faces in this subgrid" shortcut is never taken … -/
-theorem glueAsCoded_eq_glue_of_no_shortcut (nf ndr ndc : Nat) (subs : List Sub)
-    (h : ∀ s ∈ subs, s.own.length ≠ nf) : glueAsCoded nf ndr ndc subs = glue ndr ndc subs := by
+/-- Vector form (Mpsa / Biot: `nd` rows per face, `expand_indices_nd`): the statement of `glue_eq_whole`
+    per face `f` and component `k`, with the locality hypothesis phrased per owned face. -/
+theorem glue_eq_whole_vec (nd ndc nf : Nat) (subs : List Sub) (W : COO)
+    (hnodup : ∀ s ∈ subs, s.own.Nodup)
+    (hcover : ∀ f, f < nf → ∃ s ∈ subs, f ∈ s.own)
+    (hloc : ∀ s ∈ subs, ∀ f ∈ s.own, ∀ k, k < nd → ∀ j,
+      entry (mapAll nd ndc s) (f * nd + k) j = entry W (f * nd + k) j)
+    (f k j : Nat) (hf : f < nf) (hk : k < nd) :
+    entry (glue nd ndc subs) (f * nd + k) j = entry W (f * nd + k) j := by
+  have hnd : 0 < nd := Nat.lt_of_le_of_lt (Nat.zero_le k) hk
+  apply glue_eq_whole nd ndc nf hnd subs W hnodup hcover
+  · intro s hs i j hi
+    have h := hloc s hs (i / nd) hi (i % nd) (Nat.mod_lt _ hnd) j
+    rwa [Nat.mul_comm, Nat.div_add_mod] at h
+  · calc f * nd + k < f * nd + nd := Nat.add_lt_add_left hk _
+      _ = (f + 1) * nd := by rw [Nat.add_mul, Nat.one_mul]
+      _ ≤ nf * nd := Nat.mul_le_mul_right _ hf
+
+/-- The accumulation coded in `Mpfa.discretize` NOW equals the plain sum whenever every subproblem that takes
+    the "all faces in this subgrid" shortcut has identity maps (a subgrid containing all faces contains all
+    cells and keeps the numbering; the oracle checks this on every real decomposition) — in any position of
+    the subproblem list, with any number of other subproblems. -/
+theorem glueAsCoded_eq_glue (nf ndr ndc : Nat) (hr : 0 < ndr) (hc : 0 < ndc) (subs : List Sub)
+    (h : ∀ s ∈ subs, s.own.length = nf → idMaps ndr ndc s) :
+    glueAsCoded nf ndr ndc subs = glue ndr ndc subs := by
   unfold glueAsCoded glue
-  rw [accumulateAsCoded_no_shortcut nf ndr ndc subs h]
+  rw [accumulateAsCoded_eq nf ndr ndc subs
+    (fun s hs hfull => toGlobal_eq_zeroed_of_idMaps ndr ndc hr hc s (h s hs hfull)) true [] (fun _ => rfl)]
   simp
 
-/-- … and when there is a single subproblem with identity maps (what `subproblems` yields for
-    `num_part == 1`). -/
-theorem glueAsCoded_single_identity (nf ndr ndc nR nC : Nat) (s : Sub)
-    (hR : s.l2gR = List.range nR) (hC : s.l2gC = List.range nC) (hin : inRange ndr ndc s)
-    (hr : 0 < ndr) (hc : 0 < ndc) :
-    glueAsCoded nf ndr ndc [s] = glue ndr ndc [s] := by
-  have hid : ∀ (n nd : Nat), 0 < nd → ∀ i, i < n * nd → gidx (List.range n) nd i = i := by
-    intro n nd hnd i hi
-    have hlt : i / nd < n := (Nat.div_lt_iff_lt_mul hnd).mpr hi
-    unfold gidx
-    rw [getD_eq_getElem' _ _ (by simpa using hlt)]
-    simp only [List.getElem_range]
-    rw [Nat.mul_comm]; exact Nat.div_add_mod i nd
-  have hmap : toGlobal ndr ndc s = zeroed ndr s := by
-    unfold toGlobal mapCOO
-    conv_rhs => rw [← List.map_id (zeroed ndr s)]
-    apply List.map_congr_left
-    intro t ht
-    have htl : t ∈ s.loc := (List.mem_filter.mp ht).1
-    have hb := hin t htl
-    rw [hR, hC] at hb ⊢
-    simp only [List.length_range] at hb
-    rw [hid nR ndr hr _ hb.1, hid nC ndc hc _ hb.2]
-    rfl
-  unfold glueAsCoded glue
-  simp only [accumulateAsCoded, accumulate, hmap, List.nil_append, List.append_nil]
-  split <;> rfl
+/-- … hence `glue_eq_whole` holds for the code as it is. -/
+theorem glueAsCoded_eq_whole (ndr ndc nf : Nat) (hr : 0 < ndr) (hc : 0 < ndc) (subs : List Sub) (W : COO)
+    (hid : ∀ s ∈ subs, s.own.length = nf → idMaps ndr ndc s)
+    (hnodup : ∀ s ∈ subs, s.own.Nodup)
+    (hcover : ∀ f, f < nf → ∃ s ∈ subs, f ∈ s.own)
+    (hloc : ∀ s ∈ subs, ∀ i j, i / ndr ∈ s.own → entry (mapAll ndr ndc s) i j = entry W i j)
+    (i j : Nat) (hi : i < nf * ndr) :
+    entry (glueAsCoded nf ndr ndc subs) i j = entry W i j := by
+  rw [glueAsCoded_eq_glue nf ndr ndc hr hc subs hid]
+  exact glue_eq_whole ndr ndc nf hr subs W hnodup hcover hloc i j hi
+
+/-! ### locality at the level of index sets: the overlap contains every interaction region of an own face -/
+
+/-- Abstract form: if the cell set of a subproblem contains, for each of its own faces, all cells sharing a
+    node with that face (what one layer of node overlap guarantees), then for every node of an own face the
+    whole interaction region of that node (all cells around the node) lies inside the subgrid. -/
+theorem regions_inside_of_contains_neighbours (cn fn : Conn) (own cells : List Nat)
+    (H : ∀ f ∈ own, ∀ c, c < cn.length → (∃ v ∈ fn.getD f [], v ∈ cn.getD c []) → c ∈ cells)
+    (f : Nat) (hf : f ∈ own) (v : Nat) (hv : v ∈ fn.getD f [])
+    (c : Nat) (hc : c < cn.length) (hvc : v ∈ cn.getD c []) : c ∈ cells :=
+  H f hf c hc ⟨v, hv, hvc⟩
+
+/-- `_fvutils.subproblems` as coded: `faces_in_subgrid` are the faces all of whose nodes are nodes of the
+    partition, the subgrid consists of all cells sharing a node with the partition; hence every interaction
+    region of every own face is inside the subgrid. -/
+theorem own_face_regions_inside (cn fn : Conn) (P : List Nat)
+    (f : Nat) (hf : f ∈ subOwnFaces cn fn P) (v : Nat) (hv : v ∈ fn.getD f [])
+    (c : Nat) (hc : c < cn.length) (hvc : v ∈ cn.getD c []) : c ∈ subCells cn P := by
+  unfold subOwnFaces at hf
+  unfold subCells
+  rw [mem_maskToList] at hf ⊢
+  refine ⟨hc, ?_⟩
+  rw [hasNodeIn_iff]
+  exact ⟨v, hvc, (allNodesIn_iff _ _).mp hf.2 v hv⟩
+
+/-- … and the same for the cell-row terms of Biot: every interaction region of every node of a cell of the
+    partition (`cells_in_subgrid`) is inside the subgrid. -/
+theorem own_cell_regions_inside (cn : Conn) (P : List Nat)
+    (p : Nat) (hp : p ∈ P) (v : Nat) (hv : v ∈ cn.getD p [])
+    (c : Nat) (hc : c < cn.length) (hvc : v ∈ cn.getD c []) : c ∈ subCells cn P := by
+  unfold subCells
+  rw [mem_maskToList]
+  refine ⟨hc, ?_⟩
+  rw [hasNodeIn_iff]
+  exact ⟨v, hvc, (nodesOf_iff cn P v).mpr ⟨p, hp, hv⟩⟩
+
+/-- `cell_ind_for_partial_update` as coded, for ANY combination of specified cells / faces / nodes: every
+    interaction region of every affected ("active") face lies in the returned cell set. -/
+theorem affected_face_regions_inside (cn fn : Conn) (cells faces nodes : Option (List Nat))
+    (f : Nat) (hf : f ∈ (cellInd cn fn cells faces nodes).2) (v : Nat) (hv : v ∈ fn.getD f [])
+    (c : Nat) (hc : c < cn.length) (hvc : v ∈ cn.getD c []) :
+    c ∈ (cellInd cn fn cells faces nodes).1 := by
+  have hinv : RegionsInside cn fn (cellIndState cn fn cells faces nodes) := by
+    unfold cellIndState
+    apply regionsInside_optStep cn fn _ (regionsInside_stepNodes cn fn)
+    apply regionsInside_optStep cn fn _ (regionsInside_stepFaces cn fn)
+    apply regionsInside_optStep cn fn _ (regionsInside_stepCells cn fn)
+    exact regionsInside_init cn fn
+  unfold cellInd at hf ⊢
+  simp only [mem_maskToList] at hf ⊢
+  exact ⟨hc, hinv f v c hf.1 hf.2 hv hc hvc⟩
+
+/-- Partial rediscretisation specified by cells, faces or nodes (any combination): with the affected faces
+    and the active grid exactly as `cell_ind_for_partial_update` computes them, (1) the updated matrix is the
+    one-piece matrix of the new parameters under the two locality hypotheses, and (2) the index-level part of
+    the second hypothesis holds: the active grid contains all interaction regions of all affected faces. -/
+theorem partial_update_eq_whole_specified (cn fn : Conn) (cells faces nodes : Option (List Nat))
+    (ndr ndc : Nat) (hnd : 0 < ndr) (s : Sub) (old Wnew : COO)
+    (hown : s.own = (cellInd cn fn cells faces nodes).2)
+    (hold : ∀ i j, i / ndr ∉ s.own → entry old i j = entry Wnew i j)
+    (hloc : ∀ i j, i / ndr ∈ s.own → entry (mapAll ndr ndc s) i j = entry Wnew i j) :
+    (∀ i j, entry (updateRows ndr s.own old (partialFresh ndr ndc s)) i j = entry Wnew i j) ∧
+    (∀ f ∈ s.own, ∀ v ∈ fn.getD f [], ∀ c, c < cn.length → v ∈ cn.getD c [] →
+        c ∈ (cellInd cn fn cells faces nodes).1) := by
+  refine ⟨fun i j => partial_update_eq_whole ndr ndc hnd s old Wnew hold hloc i j, ?_⟩
+  intro f hf v hv c hc hvc
+  rw [hown] at hf
+  exact affected_face_regions_inside cn fn cells faces nodes f hf v hv c hc hvc
 
 /-! ### non-vacuity: concrete data -/
 
@@ -217,14 +290,46 @@ example (i j : Nat) (hi : i < 3 * 1) : entry (glue 1 1 [exS1, exS2]) i j = entry
         simp [mapAll, mapCOO, gidx, exS2, exW, entry]
   · exact hi
 
-/-- DEFECT at model level (finding `mpfa-split-late-full-cover`): a later subproblem that owns all
-    faces overwrites the accumulator, the repetition count still includes the earlier one, so the
-    as-coded result is half the whole-grid row, while the plain sum is right. -/
+/-- Finding `mpfa:split:late-full-cover-subproblem` (repaired in /repo, commit a590fa5c2) at model level: BEFORE
+    the repair a later subproblem owning all faces overwrote the accumulator while the repetition count still
+    included the earlier one, giving half the whole-grid row; the code as it is NOW gives the right value in
+    either order. -/
 def exT1 : Sub := { own := [0], l2gR := [0], l2gC := [0], loc := [(0, 0, 1)] }
 def exT2 : Sub := { own := [0, 1], l2gR := [0, 1], l2gC := [0], loc := [(0, 0, 1), (1, 0, 2)] }
 
-example : entry (glueAsCoded 2 1 1 [exT1, exT2]) 0 0 = 1 / 2 ∧ entry (glue 1 1 [exT1, exT2]) 0 0 = 1
-    ∧ entry (glueAsCoded 2 1 1 [exT2, exT1]) 0 0 = 1 := by decide +kernel
+example : entry (glueBeforeFix 2 1 1 [exT1, exT2]) 0 0 = 1 / 2 ∧ entry (glue 1 1 [exT1, exT2]) 0 0 = 1
+    ∧ entry (glueAsCoded 2 1 1 [exT1, exT2]) 0 0 = 1 ∧ entry (glueAsCoded 2 1 1 [exT2, exT1]) 0 0 = 1
+    ∧ entry (glueAsCoded 2 1 1 [exT2]) 1 0 = 2 := by decide +kernel
+
+/-- vector rows (`nd = 2`, two faces, one cell): face 0 is owned by three subproblems with different local
+    numberings; every component row comes out right. -/
+def exV (own l2g : List Nat) (loc : COO) : Sub := { own := own, l2gR := l2g, l2gC := [0], loc := loc }
+def exVW : COO := [(0, 0, 1), (1, 1, 2), (2, 0, 3), (3, 1, 4)]
+
+example : (List.range 4).map (fun i => (List.range 2).map (fun j => entry (glue 2 2
+      [exV [0] [0] [(0, 0, 1), (1, 1, 2)],
+       exV [0, 1] [1, 0] [(0, 0, 3), (1, 1, 4), (2, 0, 1), (3, 1, 2)],
+       exV [0] [0, 1] [(0, 0, 1), (1, 1, 2), (2, 0, 99)]]) i j))
+    = (List.range 4).map (fun i => (List.range 2).map (fun j => entry exVW i j)) := by decide +kernel
+
+/-- index sets on a chain of 6 cells (cell `i` has nodes `i, i+1`; face `i` is node `i`): partition `[2, 3]`
+    gives the subgrid `[1, 2, 3, 4]` and owns the faces `[2, 3, 4]`. -/
+def chainCN : Conn := [[0, 1], [1, 2], [2, 3], [3, 4], [4, 5], [5, 6]]
+def chainFN : Conn := [[0], [1], [2], [3], [4], [5], [6]]
+
+example : subCells chainCN [2, 3] = [1, 2, 3, 4] ∧ subOwnFaces chainCN chainFN [2, 3] = [2, 3, 4] := by
+  decide +kernel
+
+example : cellInd chainCN chainFN none (some [3]) none = ([1, 2, 3, 4], [3])
+    ∧ cellInd chainCN chainFN none none (some [2, 3]) = ([1, 2, 3], [2, 3])
+    ∧ cellInd chainCN chainFN (some [0]) none none = ([0, 1], [0, 1]) := by decide +kernel
+
+/-- OBSERVATION (real code agrees, see the harness): passing an EMPTY face array instead of `None` is not
+    neutral. The branch `if faces is not None` re-reads the shared `active_faces` array, so the faces activated
+    by the cells branch are treated like specified faces and two more rings of cells are returned
+    (cell 2 here). `partial_update_discretization` used to do exactly this and discarded the cell list. -/
+example : cellInd chainCN chainFN (some [0]) none none = ([0, 1], [0, 1])
+    ∧ cellInd chainCN chainFN (some [0]) (some []) none = ([0, 1, 2], [0, 1]) := by decide +kernel
 
 /-- partial update on concrete data: row 1 replaced, rows 0 and 2 kept (vector rows: `ndr = 2`) -/
 example : (List.range 6).map (fun i => entry (updateRows 2 [1] [(0, 0, 1), (2, 0, 2), (3, 0, 3), (5, 0, 4)]
